@@ -36,6 +36,7 @@ let parse_op = function
   | ["NewMessage"; a; b; c] -> NewMessage (nm a, zz b, zz c)
   | ["NewEnum"] -> NewEnum
   | ["NewEnumValue"; a; b] -> NewEnumValue (nm a, zz b)
+  | ["NewOther"] -> NewOther
   | ["NetAddBus"; a; b] -> NetAddBus (hd_ a, oh b)
   | ["NetRemoveBus"; a; b] -> NetRemoveBus (hd_ a, hd_ b)
   | ["NetRemoveAllBuses"; a] -> NetRemoveAllBuses (hd_ a)
